@@ -164,6 +164,35 @@ fn check_computed(c: &Computed) -> CaseReport {
     }
 }
 
+/// Mismatching pairs whose base powers differ by a multiple of a power of two (128, 256, 65536 ...): the two
+/// sides agree modulo a narrow integer type and must still be told apart.  Unprefixed base units only, so the
+/// exact values stay small.
+fn powers_apart() -> impl Strategy<Value = QCase> {
+    const BASE: [&str; 8] = ["m", "s", "A", "K", "mol", "cd", "B", "kg"];
+    (0usize..8, 0usize..8, -3i32..=3, prop_oneof![Just(128i32), Just(-128), Just(256), Just(-256), Just(255), Just(257), Just(512), Just(-512), Just(65536), Just(-65536), Just(32768), Just(65535)], 0u8..3, any::<bool>(), any::<bool>(), gen::small_lit(), gen::small_lit())
+        .prop_filter("no percent", |t| !t.7.text.ends_with('%') && !t.8.text.ends_with('%'))
+        .prop_map(|(i, j, p, k, form, extra, swap, x, y)| {
+            let u = BASE[i];
+            let e = BASE[j];
+            let spell = |pw: i32| {
+                let main = if pw == 1 { u.to_string() } else { format!("{}^{}", u, pw) };
+                if extra && e != u {
+                    format!("{}*{}", main, e)
+                } else {
+                    main
+                }
+            };
+            let p = if p == 0 { 1 } else { p };
+            let (a, b) = if swap { (spell(p + k), spell(p)) } else { (spell(p), spell(p + k)) };
+            let query = match form {
+                0 => format!("{} {} + {} {}", x.text, a, y.text, b),
+                1 => format!("{} {} - {} {}", x.text, a, y.text, b),
+                _ => format!("{} {} to {}", x.text, a, b),
+            };
+            QCase { query, expect: Expect::Error { why: "Incommensurable".into() }, nontrivial: true, classes: vec!["incommensurable".into(), "powers-apart-by-a-power-of-two".into()] }
+        })
+}
+
 fn check(p: &Pair) -> CaseReport {
     match make_case(p) {
         Some(c) => judge(shared_db(), &c),
@@ -206,7 +235,7 @@ fn fixed_list() -> Vec<Pair> {
 }
 
 pub fn run_check(ctx: &Ctx) {
-    ctx.set_rule("pairs of unit spellings built for the same dimension vector (commensurable: free first spelling, second = random derived units + residual in base units) or for a perturbed/unrelated one, in the forms x U1 + y U2, x U1 - y U2, x U1 to U2 and the plain-number forms x + y U, y U + x, x - y U, y U - x, x to U; oracle: success iff the reference dimension vectors (hand-written table) are equal, exact value x + y*s(U2)/s(U1), plain numbers adopt the unit in both orders; also with a computed left operand ((x A * z B) + y U, y U - (x A / z B), (x A * z B) to U) whose unit is whatever the tool reconstructed; non-trivial = the two spellings differ structurally or a plain-number form; distinct by query text");
+    ctx.set_rule("pairs of unit spellings built for the same dimension vector (commensurable: free first spelling, second = random derived units + residual in base units) or for a perturbed/unrelated one (also one whose base powers differ by 128, 256, 65536 ...), in the forms x U1 + y U2, x U1 - y U2, x U1 to U2 and the plain-number forms x + y U, y U + x, x - y U, y U - x, x to U; oracle: success iff the reference dimension vectors (hand-written table) are equal, exact value x + y*s(U2)/s(U1), plain numbers adopt the unit in both orders; also with a computed left operand ((x A * z B) + y U, y U - (x A / z B), (x A * z B) to U) whose unit is whatever the tool reconstructed; non-trivial = the two spellings differ structurally or a plain-number form; distinct by query text");
     ctx.assume("proportional units only; each unit at most once per spelling; words are restricted to those the tool reads as declared (C05 judges the rest)");
     let corpus: Vec<(String, QCase)> = load_corpus("C02");
     let cases: Vec<QCase> = corpus.into_iter().map(|c| c.1).collect();
@@ -215,6 +244,7 @@ pub fn run_check(ctx: &Ctx) {
     ctx.run_list("named-pairs", &fixed, check, |p| make_case(p).map(|c| to_json(&c)).unwrap_or(Value::Null));
     let n = ctx.tier.pick(150_000u64, 3_000_000);
     ctx.run_gen("generated", pair, n, check, |p| make_case(p).map(|c| to_json(&c)).unwrap_or(Value::Null));
+    ctx.run_gen("powers-apart-by-a-power-of-two", powers_apart, n / 15, |c| judge(shared_db(), c), |c| to_json(c));
     ctx.run_gen("computed-operands", computed, n / 5, check_computed, |c| computed_case(c).map(|q| to_json(&q)).unwrap_or(Value::Null));
     let obs = observed();
     if !obs.failed.is_empty() {
